@@ -169,6 +169,9 @@ def state_diff(before):
     return out
 
 
+BAD_X0 = [["a", 1.0], [None, 1.0, 2.0], [[1.0, 2.0], [3.0]], [1.0] * 17, "start", [1.0, float("nan")], object()]
+
+
 def build(pname):
     prob = PROBLEMS[pname]
     b = B.Builder(prob["decls"])
@@ -190,12 +193,12 @@ def same_result(a, b):
     return set(a["values"]) == set(b["values"]) and all(abs(a["values"][k] - b["values"][k]) <= 1e-7 * (1 + abs(b["values"][k])) for k in a["values"])
 
 
-def inject(rec, pname, baseline, label, cell, exc_name, arm, disarm, expect_fire=True, armed_kw=None):
+def inject(rec, pname, baseline, label, cell, exc_name, arm, disarm, expect_fire=True, armed_kw=None, judge_outcome=True):
     """One fault point: fresh problem, armed solve, state check, two unarmed re-solves.
     armed_kw: extra keyword arguments given to the failing attempt only (the re-solves are plain: nothing of the failed attempt may stick)."""
     rec.case({"p": pname, "f": label, "e": exc_name, "kw": sorted(armed_kw or {})})
     P, method, kw = build(pname)
-    if armed_kw:
+    if armed_kw and judge_outcome:
         cell = cell + "+other-kwargs"
     w = {"problem": pname, "method": method, "fault": label, "exception": exc_name, "show": {"problem": pname, "fault": label, "exception": exc_name}}
     before = snapshot()
@@ -216,7 +219,7 @@ def inject(rec, pname, baseline, label, cell, exc_name, arm, disarm, expect_fire
     rec.cmp(1, f"problem:{pname}")
     rec.cmp(1, f"exc:{exc_name}")
     if outcome[0] == "returned":
-        if outcome[1] != "failed":
+        if outcome[1] != "failed" and judge_outcome:
             rec.violation(f"fault-swallowed:returned-{outcome[1]}", {**w, "outcome": outcome})
         rec.cmp(1, "outcome:failed-returned")
     else:
@@ -288,6 +291,15 @@ def run(ctx, rec):
                         inject(rec, pname, baseline, f"{kind}#{k}/{K}", f"fault:{kind}", exc_name,
                                arm=lambda kind=kind, k=k, mk=mk: fp.arm(kind, k, mk),
                                disarm=lambda: (fp.fired, fp.disarm())[0])
+            # (1a) the failing attempt is made with a start point the solver cannot take (non-numeric entry, None entry, ragged
+            # nesting, wrong length): whatever raises and wherever, the hooks are back afterwards and the plain re-solves agree with
+            # the baseline.  No verdict on the outcome itself (a tree that validates or ignores the argument is as good).
+            for bi, bad_x0 in enumerate(BAD_X0):
+                i += 1
+                if not ctx.mine(i) or rec.out_of_time():
+                    continue
+                inject(rec, pname, baseline, f"malformed-x0#{bi}", "fault:malformed-start-point", "ValueError",
+                       arm=lambda: None, disarm=lambda: True, armed_kw={"x0": bad_x0}, judge_outcome=False)
             # (1b) faults raised below the wrappers, inside the compiled callables themselves
             for kind in sorted(k_ for k_ in counts if k_.startswith(("analysis:", "problem:"))):
                 K = counts[kind]
